@@ -285,8 +285,19 @@ func (o *orch) replayPrefix(from, to uint64, build string) (class string, wo *Wo
 	if j.wo != nil && j.wo.Viol != nil {
 		return j.wo.Viol.Class, j.wo
 	}
-	if j.code == 0 {
+	errText := ""
+	if b, err := os.ReadFile(j.errf); err == nil {
+		errText = string(b)
+	}
+	switch {
+	case j.code == 0:
 		return "ok", j.wo
+	case j.code == 67:
+		return "no-progress", j.wo
+	case j.code == 68:
+		return "deadlock", j.wo
+	case strings.Contains(errText, "fatal error:"):
+		return "fatal", j.wo
 	}
 	return "trouble", j.wo
 }
@@ -485,11 +496,11 @@ func (o *orch) search(scale float64) int {
 			w := genWorkload(o.prop, o.seed, n, o.maxOps)
 			switch {
 			case j.code == 67:
-				finds = append(finds, found{viol: &Violation{Prop: o.prop, Class: "no-progress", Sig: "no-progress", Detail: "a run exceeded the yield budget"}, wl: w, build: build})
+				finds = append(finds, found{viol: &Violation{Prop: o.prop, Class: "no-progress", Sig: "no-progress", Detail: "a run exceeded the yield budget"}, wl: w, build: build, jobFrom: j.from, jobKind: j.kind})
 			case j.code == 68:
-				finds = append(finds, found{viol: &Violation{Prop: o.prop, Class: "deadlock", Sig: "deadlock", Detail: "all simulated clients are blocked"}, wl: w, build: build})
+				finds = append(finds, found{viol: &Violation{Prop: o.prop, Class: "deadlock", Sig: "deadlock", Detail: "all simulated clients are blocked"}, wl: w, build: build, jobFrom: j.from, jobKind: j.kind})
 			case strings.Contains(errText, "fatal error:"):
-				finds = append(finds, found{viol: &Violation{Prop: o.prop, Class: "fatal", Sig: "fatal", Detail: trunc(errText[strings.Index(errText, "fatal error:"):], 1500)}, wl: w, build: build})
+				finds = append(finds, found{viol: &Violation{Prop: o.prop, Class: "fatal", Sig: "fatal", Detail: trunc(errText[strings.Index(errText, "fatal error:"):], 1500)}, wl: w, build: build, jobFrom: j.from, jobKind: j.kind})
 			default:
 				o.troublef("job %s crashed (exit %d) in run %d: %s", j.name, j.code, n, trunc(errText, 1200))
 			}
